@@ -14,15 +14,20 @@ V1a == Vrf("v1", "65000:101", 101, {"rt1", "rt2"}, {"rt1", "rt3"})
 V1b == Vrf("v1", "65000:101", 111, {"rt3"}, {"rt2"})
 V2a == Vrf("v2", "65000:102", 102, {"rt2", "rt3"}, {"rt3"})      \* its routes are imported by v2 and V1b, not by V1a
 V2b == Vrf("v2", "65000:102", 112, {"rt1"}, {"rt1", "rt2", "rt3"})
-VrfPoolAll == {V1a, V1b, V2a, V2b}
+V2c == Vrf("v2", "65000:202", 122, {"rt2"}, {"rt1"})             \* v2 re-created under another RD
+VrfPoolAll == {V1a, V1b, V2a, V2b, V2c}
 
 (* VPN routes of N2: k1, k2 have distinct RD and prefix; k3 has the RD of k2 and the IP prefix of
    k1 (the same destination reached through another PE) *)
 Slot(k) == CASE k = "k1" -> [rd |-> "65002:1", x |-> "x1", label |-> 201]
              [] k = "k2" -> [rd |-> "65002:2", x |-> "x2", label |-> 202]
              [] k = "k3" -> [rd |-> "65002:2", x |-> "x1", label |-> 203]
-Slots == {"k1", "k2", "k3"}
-VRoute(k, rts, v) == [rd |-> Slot(k).rd, x |-> Slot(k).x, label |-> Slot(k).label, rts |-> rts, v |-> v]
+             [] k = "k4" -> [rd |-> "65000:102", x |-> "x5", label |-> 204]   \* the VPN NLRI VRF v2 (V2a/V2b) originates
+Slots == {"k1", "k2", "k3", "k4"}
+VRoute(k, rts, v) == [src |-> "N2", rd |-> Slot(k).rd, x |-> Slot(k).x, label |-> Slot(k).label, rts |-> rts, v |-> v, lp |-> 0]
+(* the iBGP PE N3 announces the same VPN NLRI as k4 / VRF v2's injected route, with a LOCAL_PREF
+   above (200) or below (50) the default 100 of the locally originated and the eBGP route *)
+PRoute(rts, v, lp) == [src |-> "N3", rd |-> "65000:102", x |-> "x5", label |-> 305, rts |-> rts, v |-> v, lp |-> lp]
 
 RtSetsAll == (SUBSET RTs) \cup {S \cup {"nt1"} : S \in SUBSET RTs}
 
